@@ -303,6 +303,10 @@ const TEMPLATES: &[Template] = &[
     t("array-literal-index", "return ([{0}, {1}][{2}], *log)", &["int", "int", "idx"]),
     t("repeat", "return ([t(1, {0}); {1}], *log)", &["int", "len"]),
     t("slice", "return ([{0}, {1}, 3][{2}:], *log)", &["int", "int", "idx"]),
+    t("slice-start-step", "return ([{0}, {1}, 3][{2}::{3}], *log)", &["int", "int", "idx", "step"]),
+    t("slice-stop-step", "return ([{0}, 2, 3][:{1}:{2}], *log)", &["int", "idx", "step"]),
+    t("slice-all-bounds", "return ([{0}, 2, 3, 4][{1}:{2}:{3}], *log)", &["int", "idx", "idx", "step"]),
+    t("string-slice-step", "return (\"abcd\"[{0}::{1}], \"abcd\"[{0}:{2}], *log)", &["idx", "step", "idx"]),
     t("if-constant-cond", "r := if {0} { t(1, 10) } else { t(2, 20) }; return (r, *log)", &["bool"]),
     t("if-constant-branches", "r := if tb(1, {0}) { 10 OP {1} } else { 20 }; return (r, *log)", &["bool", "int"]),
     t("while-constant-cond", "n := mut 0; while {0} { n += 1; t(1, 1); if *n >= 2 { break } }; return (*n, *log)", &["bool"]),
@@ -358,6 +362,7 @@ fn hole_values(kind: &str, thorough: bool) -> Vec<(String, Variable, &'static st
             v.into_iter().map(|i| (int_lit(i), Variable::Int(i), "int")).collect()
         }
         "idx" => [0i64, 1, -1, 2, -2, 3, -3, -4].into_iter().map(|i| (int_lit(i), Variable::Int(i), "int")).collect(),
+        "step" => [-1i64, 1, -2, 2, 0].into_iter().map(|i| (int_lit(i), Variable::Int(i), "int")).collect(),
         "len" => [0i64, 2, -1].into_iter().map(|i| (int_lit(i), Variable::Int(i), "int")).collect(),
         "bool" => vec![("true".into(), Variable::Bool(true), "bool"), ("false".into(), Variable::Bool(false), "bool")],
         _ => unreachable!(),
